@@ -21,6 +21,9 @@ type VerifTreeMeta struct {
 	// Extra holds the raw bytes of every field of Tree this file does not know by name (a tree that
 	// gained private state), so that it takes part in the state key; empty on the known layout.
 	Extra string
+	// Page0 holds the bytes of page 0 (which the tree does not use: all zero, then recorded as "")
+	// when a tree keeps something there (a header, say): snapshot, restore and state key carry it.
+	Page0 string
 	// whole is a shallow copy of the Tree struct (buffer and data cleared): restore and clone copy
 	// it back, which carries unknown plain-data fields along.
 	whole Tree
@@ -76,6 +79,14 @@ func VerifTreeExtraFields() (names []string, plain bool) { return verifExtraName
 func VerifTreeMetaOf(t *Tree) VerifTreeMeta {
 	m := VerifTreeMeta{NextPage: t.nextPage, FreePage: t.freePage, Stats: t.stats,
 		DataLen: len(t.data), BufLen: len(t.buffer.buf)}
+	if len(t.data) >= pageSize {
+		for _, x := range t.data[:pageSize] {
+			if x != 0 {
+				m.Page0 = string(t.data[:pageSize])
+				break
+			}
+		}
+	}
 	if len(verifExtraFields) > 0 {
 		m.whole = *t
 		m.whole.buffer, m.whole.data = nil, nil
@@ -120,6 +131,11 @@ func VerifTreeUsed(t *Tree) []byte {
 func VerifTreeRestore(t *Tree, m VerifTreeMeta, used []byte, zeroUpTo int) bool {
 	if len(t.data) != m.DataLen || len(t.buffer.buf) != m.BufLen || pageSize+len(used) > len(t.data) {
 		return false
+	}
+	if m.Page0 != "" {
+		copy(t.data[:pageSize], m.Page0)
+	} else {
+		Memclr(t.data[:pageSize])
 	}
 	n := copy(t.data[pageSize:], used)
 	lo := pageSize + n
@@ -204,6 +220,7 @@ func VerifTreeBuildTight(m VerifTreeMeta, used []byte, slackPages int) *Tree {
 	}
 	t.buffer, t.nextPage, t.freePage, t.stats = b, m.NextPage, m.FreePage, m.Stats
 	t.data = b.Bytes()
+	copy(t.data[:pageSize], m.Page0)
 	copy(t.data[pageSize:], used)
 	return t
 }
